@@ -67,8 +67,12 @@ def get_expression_variables(
 
     if isinstance(context, LayeredMapping):
         out = set()
+        quoted_names = set((aliases or {}).values())
         for variable in variables:
-            variable.source = context.get_layer_name_for_key(variable.split(".", 1)[0])
+            # A quoted name is one variable even if it contains dots.
+            variable.source = context.get_layer_name_for_key(
+                variable if variable in quoted_names else variable.split(".", 1)[0]
+            )
             out.add(variable)
         return out
     return set(variables)
